@@ -166,6 +166,50 @@ def auto_discharge(ctx, s):
                 and all(re.search(r"<impl str>::(len|find|rfind)$|string::String::len$|regex::Match(::<'h>)?::(start|end|len)$|Deref>?::deref$|Iterator>?::next$|<impl \[T\]>::iter$|IntoIterator>?::into_iter$", c) for c in ncalls) \
                 and any(re.search(r"::len$|::find$|::rfind$|::start$|::end$", c) for c in ncalls):
             return ("std-contract", "a one-byte string repeated at most len(an existing string) times cannot overflow the capacity")
+    if kind in ("std:insert", "std:split_at", "std:split_at_mut") and t.get("args") and len(t["args"]) >= 2:
+        # `v.insert(i, x)` / `s.split_at(i)` panic when i > len. An index that is the result of an ordered or
+        # linear search over the same vector - `partition_point(..)` (<= len by contract), or
+        # `iter().(r)position(..)` (< len), at most + 1 - is in range, provided the vector is not changed between
+        # the search and the use
+        E = ctx.expr(b)
+        e = E.operand(t["args"][1])
+        while e[0] in ("proj", "cast") and len(e) > 2:
+            e = e[1] if e[0] == "proj" else e[2]
+
+        def plus_one_closure(ce):
+            # `|i| i + 1`: a closure whose body only adds the constant 1
+            if not (ce[0] == "agg" and str(ce[1]).startswith("closure:")):
+                return False
+            cb2 = ctx.facts.body(str(ce[1])[8:])
+            if cb2 is None or any(True for _ in cb2.calls()):
+                return False
+            adds = [s2["rv"] for _, _, s2 in cb2.assigns() if s2["rv"]["k"] == "bin"]
+            return len(adds) == 1 and adds[0]["op"].startswith("Add") and any(isinstance(x.get("k"), dict) and x["k"].get("int") == 1 for x in (adds[0]["a"], adds[0]["b"]))
+        searched = False
+        if e[0] == "call" and re.search(r"<impl \[T\]>::partition_point$", e[1]):
+            searched = True
+        elif e[0] == "call" and re.search(r"option::Option::<T>::map_or$", e[1]) and len(e[2]) == 3:
+            inner, dflt, clo = e[2]
+            if inner[0] == "call" and re.search(r"Iterator>?::(position|rposition)$", inner[1]) and dflt[0] == "const" and dflt[1] in (0, 1) and plus_one_closure(clo):
+                searched = True
+        elif e[0] == "call" and re.search(r"Iterator>?::(position|rposition)$", e[1]):
+            searched = True
+        vec_txt = render(E.operand(t["args"][0]), 200)
+        if searched and vec_txt and vec_txt in render(e, 2000):      # ... over the very vector that is indexed
+            base = util.base_path(b, t["args"][0])
+            cfg = cfg_of(b)
+            ins_bb = next((bi for bi, tt in b.calls() if tt is t), None)
+            s_bbs = [bi for bi, tt in b.calls() if re.search(r"partition_point$|Iterator>?::(position|rposition)$", callee_name(tt))]
+            muts = [bi for bi, tt in b.calls() if tt is not t and tt["args"] and re.match(r"&mut std::vec::Vec<", (tt.get("arg_tys") or [""])[0]) and util.base_path(b, tt["args"][0]) == base
+                    and not re.search(r"Deref(Mut)?>?::deref(_mut)?$|::(iter|iter_mut|len|is_empty|last|first|as_slice)$", callee_name(tt))]
+            between = False
+            for sb in s_bbs:
+                r1 = cfg.reach(sb)
+                for mb in muts:
+                    if mb in r1 and mb != sb and ins_bb is not None and ins_bb in cfg.reach(mb) and mb != ins_bb:
+                        between = True
+            if ins_bb is not None and s_bbs and not between:
+                return ("std-contract", "the index is the result of `partition_point` / `position` / `rposition` over the same vector (at most + 1), which is not changed in between: it cannot exceed the length")
     if kind in ("std:borrow_mut", "std:borrow") and (t.get("def") or "").startswith("std::cell::RefCell"):
         # a RefCell panics on a second overlapping borrow. RefCell is never Sync, so overlap needs two
         # activations on one thread: with a single borrowing site for this cell type in the reachable crate
@@ -198,6 +242,20 @@ def auto_discharge(ctx, s):
         if calls and not other and all(re.search(r"<impl \[T\]>::partition_point$", c) for c in calls) and (s["index"][0] == "agg" and s["index"][1].endswith("RangeFrom")):
             rl = _labels(ctx, b, t["args"][0])
             return ("std-contract", "partition_point returns an index <= len")
+        # `&v[..k]` / `&v[k..]` with k the direct result of a search over the same slice
+        ie0 = s.get("index")
+        if ie0 is not None and ie0[0] == "agg" and re.search(r"Range(From|To)$", str(ie0[1])) and len(ie0[2]) == 1:
+            be = ie0[2][0]
+            while be[0] in ("proj", "cast") and len(be) > 2:
+                be = be[1] if be[0] == "proj" else be[2]
+            recv_txt = render(ctx.expr(b).operand(t["args"][0]), 200)
+            if be[0] == "call" and re.search(r"option::Option::<T>::unwrap_or$", be[1]) and len(be[2]) == 2:
+                # `position(..).unwrap_or(v.len())` / `.unwrap_or(0)`
+                d_ = be[2][1]
+                if (d_[0] == "const" and d_[1] == 0) or (d_[0] == "call" and re.search(r"<impl \[T\]>::len$|vec::Vec::<T, A>::len$", d_[1]) and recv_txt and recv_txt in render(d_, 400)):
+                    be = be[2][0]
+            if be[0] == "call" and re.search(r"<impl \[T\]>::partition_point$|Iterator>?::(position|rposition)$", be[1]) and recv_txt and recv_txt in render(be, 2000):
+                return ("std-contract", "the bound is the result of `partition_point` / `position` over the same slice: it cannot exceed the length")
     if kind == "index-str" and s.get("index") is not None and s.get("recv") is not None:
         # bounds produced by searching the very string that is sliced: `s[..s.rfind(p)?]`, `s[i..]` with
         # i = s.find(p), `s[i + 1..]` after a one-byte ASCII pattern, `s[..e]` with e = s.len() or an
@@ -371,6 +429,11 @@ def run(ctx, out, tier):
                 if tv.get("anyfile") and tk.split("|", 1)[1] == tail:
                     ck0 = tk
                     break
+        if ck0 not in table and ck0.endswith("[RangeToInclusive]"):
+            # `s[..=i]` is `s[..i + 1]`: the reviewed argument for the half-open spelling in this file covers it
+            alt = ck0[:-len("[RangeToInclusive]")] + "[RangeTo]"
+            if alt in table:
+                ck0 = alt
         if ck0 not in table:
             # an index that is a field of a local (`self.idx`, a destructured argument struct) is an index held
             # in a variable: the reviewed argument for `v[i]` in this file covers it
